@@ -202,6 +202,147 @@ theorem steps_recvAll_bad (s : Sock) (hudp : s.tcp = false) (m : Bytes) (hm : ma
   simp only [Option.getD_none, this] at hr
   exact Steps.bind_err hr w hw
 
+/-! ### a reply that stops half way: some of the data packets, then something on which `receive` fails -/
+
+theorem perm_ok_inv {l : List (Res Frag)} {F : List Frag} (h : l.Perm (F.map .ok)) :
+    ∃ L : List Frag, L.Perm F ∧ l = L.map .ok := by
+  have hall : ∀ r ∈ l, ∃ f, r = .ok f := by
+    intro r hr
+    obtain ⟨f, _, rfl⟩ := List.mem_map.mp (h.subset hr)
+    exact ⟨f, rfl⟩
+  have hex : ∀ (l : List (Res Frag)), (∀ r ∈ l, ∃ f, r = .ok f) → ∃ L : List Frag, l = L.map .ok := by
+    intro l
+    induction l with
+    | nil => intro _; exact ⟨[], rfl⟩
+    | cons r t ih =>
+      intro hl
+      obtain ⟨f, rfl⟩ := hl r (by simp)
+      obtain ⟨L, rfl⟩ := ih (fun r hr => hl r (by simp [hr]))
+      exact ⟨f :: L, rfl⟩
+  obtain ⟨L, rfl⟩ := hex _ hall
+  refine ⟨L, ?_, rfl⟩
+  have hg := h.map (fun r : Res Frag => match r with
+    | .ok f => f
+    | _ => ⟨0, false, []⟩)
+  simpa [List.map_map, Function.comp_def] using hg
+
+/-- an incomplete selection of the data packets of a response with payloads `ps` decodes to distinct packets of that
+response, fewer than it has -/
+theorem selects_frags (unknown : List Nat) (ps : List Bytes) (hcount : ps.length ≤ 128)
+    (hsize : ∀ d ∈ packetsFrom unknown ps.length 0 ps, d.length ≤ PACKET_SIZE) (got : List Bytes)
+    (h : selects got (packetsFrom unknown ps.length 0 ps) = true) :
+    ∃ G : List Frag, got.map decodeFrag = G.map .ok ∧ (ids G).Nodup ∧ (∀ f ∈ G, IsFragOf ps f)
+      ∧ G.length < ps.length := by
+  obtain ⟨more, hne, hp⟩ := selects_perm got _ h
+  have hdec : ((got ++ more).map decodeFrag).Perm ((frags ps).map .ok) := by
+    have := hp.map decodeFrag
+    rwa [wire_packets _ _ _ 0 (by omega) hsize] at this
+  obtain ⟨L, hperm, hL⟩ := perm_ok_inv hdec
+  have hLlen : L.length = got.length + more.length := by
+    have := congrArg List.length hL
+    simpa using this.symm
+  have hpslen : L.length = ps.length := by
+    have := hperm.length_eq
+    have h2 : (frags ps).length = ps.length := by
+      have := congrArg List.length (ids_frags ps)
+      simpa [ids] using this
+    omega
+  have hmore : 0 < more.length := List.length_pos_iff.mpr hne
+  refine ⟨L.take got.length, ?_, ?_, ?_, ?_⟩
+  · have := congrArg (List.take got.length) hL
+    rw [List.map_append, List.take_left' (by simp), ← List.map_take] at this
+    exact this
+  · have hnd : (ids L).Nodup := by
+      have : (ids L).Perm (List.range ps.length) := by rw [← ids_frags]; exact hperm.map _
+      exact this.symm.nodup List.nodup_range
+    have hsub : (ids (L.take got.length)).Sublist (ids L) := (List.take_sublist _ _).map _
+    exact hnd.sublist hsub
+  · intro f hf
+    exact (mem_frags ps f).mp (hperm.subset (List.mem_of_mem_take hf))
+  · rw [List.length_take]
+    omega
+
+/-- the receive loop after the packets `P`, on further packets `G` of the response — still fewer than it has — followed
+by a delivery `x` on which `GameSpy3::receive` fails with `e`: the loop fails with `e` -/
+theorem steps_recvPackets_stop (s : Sock) (hudp : s.tcp = false) (ps : List Bytes) (e : ErrKind) (x : Delivery)
+    (q : List Delivery)
+    (hx : ∀ fs sn, Steps s (receive s none 0) (.err e) ⟨x :: q, fs, sn⟩ ⟨q, fs, sn⟩) :
+    ∀ (ds : List Bytes) (G P : List Frag) (a : Acc) (fuel : Nat),
+      ds.map decodeFrag = G.map .ok → (∀ d ∈ ds, d.length ≤ PACKET_SIZE) → Rep ps P a → (ids (P ++ G)).Nodup →
+      (∀ f ∈ P ++ G, IsFragOf ps f) → (P ++ G).length < ps.length → ds.length < fuel → ∀ fs sn,
+      Steps s (recvPackets s fuel a) (.err e) ⟨ds.map .data ++ x :: q, fs, sn⟩ ⟨q, fs, sn⟩ := by
+  intro ds
+  induction ds with
+  | nil =>
+    intro G P a fuel _ _ hrep _ _ hlt hfuel fs sn
+    obtain ⟨f, rfl⟩ : ∃ f, fuel = f + 1 := ⟨fuel - 1, by omega⟩
+    have hm := hrep.more (by simp only [List.length_append] at hlt; omega)
+    unfold recvPackets
+    simp only [hm, ↓reduceIte, List.map_nil, List.nil_append]
+    exact Steps.bind_err (hx fs sn)
+  | cons d r ih =>
+    intro G P a fuel hdec hfit hrep hnd hfr hlt hfuel fs sn
+    obtain ⟨f, rfl⟩ : ∃ f, fuel = f + 1 := ⟨fuel - 1, by omega⟩
+    cases G with
+    | nil => simp at hdec
+    | cons g G' =>
+      simp only [List.map_cons, List.cons.injEq] at hdec
+      obtain ⟨hdg, hdec'⟩ := hdec
+      have hm := hrep.more (by simp only [List.length_append] at hlt; omega)
+      have hd : d.take PACKET_SIZE = d := List.take_of_length_le (hfit d (by simp))
+      have hdf : decodeFrag d = ((readHeader 0).run d >>= fun p => readFrag.run p) := by
+        unfold decodeFrag; rw [hd]
+      have hr := steps_receive s hudp none 0 d (r.map .data ++ x :: q) fs sn
+      simp only [Option.getD_none, hd] at hr
+      have hnew : g.id ∉ ids P := by
+        intro hmem
+        have : ids (P ++ g :: G') = ids P ++ g.id :: ids G' := by simp [ids]
+        rw [this] at hnd
+        exact (List.nodup_append.mp hnd).2.2 _ hmem g.id (by simp) rfl
+      obtain ⟨a', hacc, hrep'⟩ := hrep.accept (hfr g (by simp)) hnew
+      have hassoc : (P ++ [g]) ++ G' = P ++ g :: G' := by simp
+      unfold recvPackets
+      simp only [hm, ↓reduceIte, List.map_cons, List.cons_append]
+      cases hh : (readHeader 0).run d with
+      | err k => rw [hdf, hh] at hdg; cases hdg
+      | crash => rw [hdf, hh] at hdg; cases hdg
+      | ok p =>
+        rw [hh] at hr
+        have hf : readFrag.run p = .ok g := by rw [hdf, hh, Res.bind_ok] at hdg; exact hdg
+        refine Steps.bind (by simpa using hr) ?_
+        refine Steps.bind ((Steps.parse s readFrag p _).congrRes hf.symm) ?_
+        refine Steps.bind ((Steps.lift s (accept a g) _).congrRes hacc.symm) ?_
+        exact ih G' (P ++ [g]) a' f hdec' (fun y hy => hfit y (by simp [hy])) hrep' (by rw [hassoc]; exact hnd)
+          (by rw [hassoc]; exact hfr) (by rw [hassoc]; exact hlt) (by simp at hfuel; omega) fs sn
+
+/-- the receive loop from its initial state on an incomplete selection of the data packets of a response, followed by a
+delivery on which `GameSpy3::receive` fails -/
+theorem steps_recvAll_stop (s : Sock) (hudp : s.tcp = false) (unknown : List Nat) (ps : List Bytes)
+    (hcount : ps.length ≤ 128) (hsize : ∀ d ∈ packetsFrom unknown ps.length 0 ps, d.length ≤ PACKET_SIZE)
+    (e : ErrKind) (x : Delivery) (q : List Delivery)
+    (hx : ∀ fs sn, Steps s (receive s none 0) (.err e) ⟨x :: q, fs, sn⟩ ⟨q, fs, sn⟩)
+    (got : List Bytes) (hgot : partOf got (packetsFrom unknown ps.length 0 ps) = true) (fs : List Bool)
+    (sn : List (Bytes × Bool)) :
+    Steps s (recvAll s) (.err e) ⟨got.map .data ++ x :: q, fs, sn⟩ ⟨q, fs, sn⟩ := by
+  intro w hw
+  show ∃ w', recvPackets s (queued s w + 1) Acc.init w = _ ∧ _
+  have hq : got.length < queued s w + 1 := by
+    have := hw.queue
+    simp only at this
+    simp only [queued, this, List.length_append, List.length_map]
+    omega
+  cases got with
+  | nil =>
+    unfold recvPackets
+    simp only [acc_init_more, ↓reduceIte]
+    exact Steps.bind_err (hx fs sn) w hw
+  | cons d r =>
+    have hsel : selects (d :: r) (packetsFrom unknown ps.length 0 ps) = true := by simpa [partOf] using hgot
+    obtain ⟨G, hdec, hnd, hfr, hlt⟩ := selects_frags unknown ps hcount hsize (d :: r) hsel
+    exact steps_recvPackets_stop s hudp ps e x q hx (d :: r) G [] Acc.init (queued s w + 1) hdec
+      (fun y hy => hsize y (selects_mem hsel y hy)) (Rep.init ps) (by simpa using hnd) (by simpa using hfr)
+      (by simpa using hlt) hq fs sn w hw
+
 /-! ### one attempt (`get_server_packets_impl`): handshake, data request, then the receiving `tail` -/
 
 /-- handshake, data request, then `tail`: the receive loop, or the one receive of single-packet mode -/
@@ -227,25 +368,43 @@ theorem hsRequest_eq : hsRequest = handshakeRequest := by decide
 theorem dataRequest_eq (c : Int) : requestBytes 0 (challengeOf c) (some DEFAULT_PAYLOAD) = dataRequest c :=
   (exchange_wire.C09_request_bytes c).2
 
-/-- what the receiving stage does on a silence and on a datagram of the wrong kind -/
-structure TailOk (s : Sock) (tail : Q (List Bytes)) : Prop where
-  silent : ∀ q fs sn, Steps s tail (.err .packetReceive) ⟨.silence :: q, fs, sn⟩ ⟨q, fs, sn⟩
-  bad : ∀ m, malformedAt .data m = true → ∀ q fs sn,
-    Steps s tail (.err (malformedError m)) ⟨.data m :: q, fs, sn⟩ ⟨q, fs, sn⟩
+/-- `GameSpy3::receive` on a datagram of the wrong kind -/
+theorem steps_receive_bad (s : Sock) (hudp : s.tcp = false) (m : Bytes) (hm : malformedAt .data m = true)
+    (q : List Delivery) (fs : List Bool) (sn : List (Bytes × Bool)) :
+    Steps s (receive s none 0) (.err (malformedError m)) ⟨.data m :: q, fs, sn⟩ ⟨q, fs, sn⟩ := by
+  have hr := steps_receive s hudp none 0 m q fs sn
+  have := readHeader_malformed .data m PACKET_SIZE (by decide) hm
+  simp only [Stage.kind, show (0 : UInt8).toNat = 0 from rfl] at this
+  simp only [Option.getD_none, this] at hr
+  exact hr
 
-theorem tailOk_recvAll (s : Sock) (hudp : s.tcp = false) : TailOk s (recvAll s) :=
-  ⟨steps_recvAll_silent s, fun m hm q fs sn => steps_recvAll_bad s hudp m hm q fs sn⟩
+/-- what the receiving stage does, after some (not all) of the data packets `pool` of the reply — or none —, on a silence
+and on a datagram of the wrong kind -/
+structure TailOk (s : Sock) (pool : List Bytes) (tail : Q (List Bytes)) : Prop where
+  lost : ∀ got, partOf got pool = true → ∀ q fs sn,
+    Steps s tail (.err .packetReceive) ⟨got.map .data ++ .silence :: q, fs, sn⟩ ⟨q, fs, sn⟩
+  bad : ∀ got m, partOf got pool = true → malformedAt .data m = true → ∀ q fs sn,
+    Steps s tail (.err (malformedError m)) ⟨got.map .data ++ .data m :: q, fs, sn⟩ ⟨q, fs, sn⟩
 
-theorem tailOk_recvOne (s : Sock) (hudp : s.tcp = false) : TailOk s (recvOne s) := by
-  refine ⟨fun q fs sn => ?_, fun m hm q fs sn => ?_⟩
-  · unfold recvOne
+/-- the receive loop of the multi-packet mode, for the data packets of a response with payloads `ps` -/
+theorem tailOk_recvAll (s : Sock) (hudp : s.tcp = false) (unknown : List Nat) (ps : List Bytes)
+    (hcount : ps.length ≤ 128) (hsize : ∀ d ∈ packetsFrom unknown ps.length 0 ps, d.length ≤ PACKET_SIZE) :
+    TailOk s (packetsFrom unknown ps.length 0 ps) (recvAll s) :=
+  ⟨fun got hgot q fs sn => steps_recvAll_stop s hudp unknown ps hcount hsize .packetReceive .silence q
+      (fun fs sn => steps_receive_silence s none 0 q fs sn) got hgot fs sn,
+   fun got m hgot hm q fs sn => steps_recvAll_stop s hudp unknown ps hcount hsize (malformedError m) (.data m) q
+      (fun fs sn => steps_receive_bad s hudp m hm q fs sn) got hgot fs sn⟩
+
+/-- the one receive of the single-packet mode: of a reply of one packet nothing short of all can arrive -/
+theorem tailOk_recvOne (s : Sock) (hudp : s.tcp = false) (pool : List Bytes) (hp : pool.length ≤ 1) :
+    TailOk s pool (recvOne s) := by
+  refine ⟨fun got hgot q fs sn => ?_, fun got m hgot hm q fs sn => ?_⟩
+  · rw [partOf_short hgot hp]
+    unfold recvOne
     exact Steps.bind_err (steps_receive_silence s none 0 q fs sn)
-  · unfold recvOne
-    have hr := steps_receive s hudp none 0 m q fs sn
-    have := readHeader_malformed .data m PACKET_SIZE (by decide) hm
-    simp only [Stage.kind, show (0 : UInt8).toNat = 0 from rfl] at this
-    simp only [Option.getD_none, this] at hr
-    exact Steps.bind_err hr
+  · rw [partOf_short hgot hp]
+    unfold recvOne
+    exact Steps.bind_err (steps_receive_bad s hudp m hm q fs sn)
 
 theorem steps_dataRequest (s : Sock) (payload : Bytes) (c : Int) (dreq : Bytes)
     (hd : requestBytes 0 (challengeOf c) (some payload) = dreq) (f : Bool) (q : List Delivery) (fs : List Bool)
@@ -258,18 +417,20 @@ theorem steps_dataRequest (s : Sock) (payload : Bytes) (c : Int) (dreq : Bytes)
   | false => exact steps_send_ok s _ _ fs _
   | true => exact steps_send_fault s _ _ fs _
 
-/-- a failed attempt of the plan: the attempt's timeout-class error, exactly its deliveries and flags consumed, exactly
-its requests sent -/
-theorem steps_attemptOf (s : Sock) (hudp : s.tcp = false) (payload : Bytes) (tail : Q (List Bytes))
-    (ht : TailOk s tail) (c : Int) (hlo : -(2 ^ 31 : Int) ≤ c) (hhi : c < 2 ^ 31) (dreq : Bytes)
-    (hd : requestBytes 0 (challengeOf c) (some payload) = dreq) (a : Attempt) (q : List Delivery) (fs : List Bool)
-    (sn : List (Bytes × Bool)) :
+/-- a failed attempt of the plan: the attempt's timeout-class error, exactly its deliveries (at the data stage: the
+handshake reply, the data packets that still arrive, the silence) and flags consumed, exactly its requests sent -/
+theorem steps_attemptOf (s : Sock) (hudp : s.tcp = false) (payload : Bytes) (pool : List Bytes)
+    (tail : Q (List Bytes)) (ht : TailOk s pool tail) (c : Int) (hlo : -(2 ^ 31 : Int) ≤ c) (hhi : c < 2 ^ 31)
+    (dreq : Bytes) (hd : requestBytes 0 (challengeOf c) (some payload) = dreq) (a : Attempt)
+    (ha : a.wf pool = true) (q : List Delivery) (fs : List Bool) (sn : List (Bytes × Bool)) :
     Steps s (attemptOf s payload tail) (.err a.error)
       ⟨a.deliveriesAt c ++ q, a.faults ++ fs, sn⟩ ⟨q, fs, sn ++ a.sendsWith dreq⟩ := by
   unfold attemptOf
-  obtain ⟨stage, sf⟩ := a
+  obtain ⟨stage, sf, got⟩ := a
   cases stage with
   | handshake =>
+    have hgot : got = [] := by simpa [Attempt.wf, gotAt] using ha
+    subst hgot
     cases sf with
     | false =>
       simpa [Attempt.deliveriesAt, Attempt.faults, Attempt.sendsWith, Attempt.error, attemptError, hsRequest_eq]
@@ -282,14 +443,18 @@ theorem steps_attemptOf (s : Sock) (hudp : s.tcp = false) (payload : Bytes) (tai
   | data =>
     cases sf with
     | false =>
-      have h1 := steps_handshake_ok s hudp c hlo hhi (.silence :: q) (false :: fs) sn
-      have h2 := steps_dataRequest s payload c dreq hd false (.silence :: q) fs (sn ++ [(hsRequest, false)])
-      have h3 := ht.silent q fs (sn ++ [(hsRequest, false)] ++ [(dreq, false)])
+      have hgot : partOf got pool = true := by simpa [Attempt.wf, gotAt] using ha
+      have h1 := steps_handshake_ok s hudp c hlo hhi (got.map .data ++ .silence :: q) (false :: fs) sn
+      have h2 := steps_dataRequest s payload c dreq hd false (got.map .data ++ .silence :: q) fs
+        (sn ++ [(hsRequest, false)])
+      have h3 := ht.lost got hgot q fs (sn ++ [(hsRequest, false)] ++ [(dreq, false)])
       have hS := Steps.bind (g := fun ch => sendDataRequest s payload ch >>= fun _ => tail) h1
         (Steps.bind (g := fun _ => tail) h2 h3)
       simpa [Attempt.deliveriesAt, Attempt.faults, Attempt.sendsWith, Attempt.error, attemptError, hsRequest_eq,
         List.append_assoc] using hS
     | true =>
+      have hgot : got = [] := by simpa [Attempt.wf, gotAt] using ha
+      subst hgot
       have h1 := steps_handshake_ok s hudp c hlo hhi q (true :: fs) sn
       have h2 := steps_dataRequest s payload c dreq hd true q fs (sn ++ [(hsRequest, false)])
       have hS := Steps.bind (g := fun ch => sendDataRequest s payload ch >>= fun _ => tail) h1
@@ -319,25 +484,30 @@ theorem steps_validOf (s : Sock) (hudp : s.tcp = false) (payload : Bytes) (tail 
     (Steps.bind (g := fun _ => tail) h2 h3)
   simpa [Ending.deliveriesAt, Ending.faults, Ending.sendsWith, hsRequest_eq, List.append_assoc] using hS
 
-/-- the attempt that receives a datagram of the wrong kind at one of the two stages -/
-theorem steps_malformedOf (s : Sock) (hudp : s.tcp = false) (payload : Bytes) (tail : Q (List Bytes))
-    (ht : TailOk s tail) (c : Int) (hlo : -(2 ^ 31 : Int) ≤ c) (hhi : c < 2 ^ 31) (dreq : Bytes)
-    (hd : requestBytes 0 (challengeOf c) (some payload) = dreq) (stage : Stage) (m : Bytes)
-    (hm : malformedAt stage m = true) (packets : List Bytes) (q : List Delivery) (fs : List Bool)
-    (sn : List (Bytes × Bool)) :
+/-- the attempt that receives a datagram of the wrong kind at one of the two stages (at the data stage: possibly after
+some of the data packets) -/
+theorem steps_malformedOf (s : Sock) (hudp : s.tcp = false) (payload : Bytes) (pool : List Bytes)
+    (tail : Q (List Bytes)) (ht : TailOk s pool tail) (c : Int) (hlo : -(2 ^ 31 : Int) ≤ c) (hhi : c < 2 ^ 31)
+    (dreq : Bytes) (hd : requestBytes 0 (challengeOf c) (some payload) = dreq) (stage : Stage) (got : List Bytes)
+    (m : Bytes) (hm : malformedAt stage m = true) (hgot : gotAt pool stage false got = true) (packets : List Bytes)
+    (q : List Delivery) (fs : List Bool) (sn : List (Bytes × Bool)) :
     Steps s (attemptOf s payload tail) (.err (malformedError m))
-      ⟨(Ending.malformed stage m).deliveriesAt c packets ++ q, (Ending.malformed stage m).faults ++ fs, sn⟩
-      ⟨q, fs, sn ++ (Ending.malformed stage m).sendsWith dreq⟩ := by
+      ⟨(Ending.malformed stage got m).deliveriesAt c packets ++ q, (Ending.malformed stage got m).faults ++ fs, sn⟩
+      ⟨q, fs, sn ++ (Ending.malformed stage got m).sendsWith dreq⟩ := by
   unfold attemptOf
   cases stage with
   | handshake =>
+    have hg : got = [] := by simpa [gotAt] using hgot
+    subst hg
     have hS := Steps.bind_err (g := fun ch => sendDataRequest s payload ch >>= fun _ => tail)
       (steps_handshake_bad s hudp m hm q fs sn)
     simpa [Ending.deliveriesAt, Ending.faults, Ending.sendsWith, hsRequest_eq] using hS
   | data =>
-    have h1 := steps_handshake_ok s hudp c hlo hhi (.data m :: q) (false :: fs) sn
-    have h2 := steps_dataRequest s payload c dreq hd false (.data m :: q) fs (sn ++ [(hsRequest, false)])
-    have h3 := ht.bad m hm q fs (sn ++ [(hsRequest, false)] ++ [(dreq, false)])
+    have hg : partOf got pool = true := by simpa [gotAt] using hgot
+    have h1 := steps_handshake_ok s hudp c hlo hhi (got.map .data ++ .data m :: q) (false :: fs) sn
+    have h2 := steps_dataRequest s payload c dreq hd false (got.map .data ++ .data m :: q) fs
+      (sn ++ [(hsRequest, false)])
+    have h3 := ht.bad got m hg hm q fs (sn ++ [(hsRequest, false)] ++ [(dreq, false)])
     have hS := Steps.bind (g := fun ch => sendDataRequest s payload ch >>= fun _ => tail) h1
       (Steps.bind (g := fun _ => tail) h2 h3)
     simpa [Ending.deliveriesAt, Ending.faults, Ending.sendsWith, hsRequest_eq, List.append_assoc] using hS
@@ -350,39 +520,48 @@ def afterOf (plan : Plan) (q' q : List Delivery) : List Delivery :=
   | .valid => q'
   | _ => q
 
-theorem steps_unitOf (s : Sock) (hudp : s.tcp = false) (payload : Bytes) (tail : Q (List Bytes))
-    (ht : TailOk s tail) (c : Int) (hlo : -(2 ^ 31 : Int) ≤ c) (hhi : c < 2 ^ 31) (dreq : Bytes)
+theorem steps_unitOf (s : Sock) (hudp : s.tcp = false) (payload : Bytes) (pool : List Bytes) (tail : Q (List Bytes))
+    (ht : TailOk s pool tail) (c : Int) (hlo : -(2 ^ 31 : Int) ≤ c) (hhi : c < 2 ^ 31) (dreq : Bytes)
     (hd : requestBytes 0 (challengeOf c) (some payload) = dreq) (packets good : List Bytes) (q q' : List Delivery)
     (hvalid : ∀ fs sn, Steps s tail (.ok good) ⟨packets.map .data ++ q, fs, sn⟩ ⟨q', fs, sn⟩)
-    (retries : Nat) (plan : Plan) (hplan : wfPlan retries plan = true) (fs : List Bool) (sn : List (Bytes × Bool)) :
+    (retries : Nat) (plan : Plan) (hplan : wfPlan retries pool plan = true) (fs : List Bool)
+    (sn : List (Bytes × Bool)) :
     Steps s (retryOnTimeout retries (attemptOf s payload tail)) (packetsOutcome good plan)
       ⟨scriptAt c plan packets ++ q, faultyFaults plan ++ fs, sn⟩
       ⟨afterOf plan q' q, fs, sn ++ sendsWith dreq plan⟩ := by
-  have hstep := fun a q fs sn => steps_attemptOf s hudp payload tail ht c hlo hhi dreq hd a q fs sn
+  have hstep := fun a ha q fs sn => steps_attemptOf s hudp payload pool tail ht c hlo hhi dreq hd a ha q fs sn
   obtain ⟨fails, ending⟩ := plan
+  simp only [wfPlan, Bool.and_eq_true, List.all_eq_true] at hplan
+  obtain ⟨hfails, hend⟩ := hplan
   cases ending with
   | valid =>
-    have hlen : fails.length ≤ retries := by simpa [wfPlan] using hplan
-    have hR := Steps.retry_recovers (Attempt.deliveriesAt c) Attempt.faults (Attempt.sendsWith dreq) Attempt.error
+    have hlen : fails.length ≤ retries := by simpa using hend
+    have hR := Steps.retry_recovers_of (fun a : Attempt => a.wf pool = true) (Attempt.deliveriesAt c) Attempt.faults
+      (Attempt.sendsWith dreq) Attempt.error
       Attempt.error_timeout hstep (R := .ok good) (fun k hk => by cases hk)
       (Ending.valid.deliveriesAt c packets ++ q) q' (Ending.valid.faults ++ fs) fs
       (Ending.valid.sendsWith dreq)
-      (fun sn => steps_validOf s hudp payload tail c hlo hhi dreq hd packets good q q' hvalid fs sn) fails retries sn hlen
+      (fun sn => steps_validOf s hudp payload tail c hlo hhi dreq hd packets good q q' hvalid fs sn) fails retries sn
+      hfails hlen
     simpa [scriptAt, faultyFaults, sendsWith, packetsOutcome, afterOf, List.append_assoc] using hR
-  | malformed stage m =>
-    have hlen : fails.length ≤ retries ∧ malformedAt stage m = true := by simpa [wfPlan] using hplan
-    have hR := Steps.retry_recovers (Attempt.deliveriesAt c) Attempt.faults (Attempt.sendsWith dreq) Attempt.error
+  | malformed stage got m =>
+    have hlen : (fails.length ≤ retries ∧ malformedAt stage m = true) ∧ gotAt pool stage false got = true := by
+      simpa using hend
+    have hR := Steps.retry_recovers_of (fun a : Attempt => a.wf pool = true) (Attempt.deliveriesAt c) Attempt.faults
+      (Attempt.sendsWith dreq) Attempt.error
       Attempt.error_timeout hstep (R := (.err (malformedError m) : Res (List Bytes)))
       (fun k hk => by cases hk; exact malformedError_not_timeout m)
-      ((Ending.malformed stage m).deliveriesAt c packets ++ q) q ((Ending.malformed stage m).faults ++ fs) fs
-      ((Ending.malformed stage m).sendsWith dreq)
-      (fun sn => steps_malformedOf s hudp payload tail ht c hlo hhi dreq hd stage m hlen.2 packets q fs sn)
-      fails retries sn hlen.1
+      ((Ending.malformed stage got m).deliveriesAt c packets ++ q) q ((Ending.malformed stage got m).faults ++ fs) fs
+      ((Ending.malformed stage got m).sendsWith dreq)
+      (fun sn => steps_malformedOf s hudp payload pool tail ht c hlo hhi dreq hd stage got m hlen.1.2 hlen.2 packets q
+        fs sn)
+      fails retries sn hfails hlen.1.1
     simpa [scriptAt, faultyFaults, sendsWith, packetsOutcome, afterOf, List.append_assoc] using hR
   | gaveUp =>
-    have hlen : fails.length = retries + 1 := by simpa [wfPlan] using hplan
-    have hR := Steps.retry_exhausted (Attempt.deliveriesAt c) Attempt.faults (Attempt.sendsWith dreq) Attempt.error
-      Attempt.error_timeout hstep q fs retries fails sn hlen
+    have hlen : fails.length = retries + 1 := by simpa using hend
+    have hR := Steps.retry_exhausted_of (fun a : Attempt => a.wf pool = true) (Attempt.deliveriesAt c) Attempt.faults
+      (Attempt.sendsWith dreq) Attempt.error
+      Attempt.error_timeout hstep q fs retries fails sn hfails hlen
     simpa [scriptAt, faultyFaults, sendsWith, packetsOutcome, afterOf, Ending.deliveriesAt, Ending.faults,
       Ending.sendsWith] using hR
 
@@ -394,14 +573,16 @@ def afterValid (arrival : List Bytes) (q : List Delivery) : List Delivery :=
 /-- `get_server_packets` of GameSpy 3 (multi-packet mode, the default payload) under a plan -/
 theorem steps_unit (s : Sock) (hudp : s.tcp = false) (cfg : Config) (st : State) (h : wf cfg st = true)
     (arrival : List Bytes) (harr : arrival.Perm (dataPackets cfg st)) (retries : Nat) (plan : Plan)
-    (hplan : wfPlan retries plan = true) (q : List Delivery) (fs : List Bool) (sn : List (Bytes × Bool)) :
+    (hplan : wfPlan retries (dataPackets cfg st) plan = true) (q : List Delivery) (fs : List Bool)
+    (sn : List (Bytes × Bool)) :
     Steps s (getServerPackets s retries DEFAULT_PAYLOAD false) (faultyPackets cfg st plan)
       ⟨faultyScript cfg plan arrival ++ q, faultyFaults plan ++ fs, sn⟩
       ⟨afterOf plan (afterValid arrival q) q, fs, sn ++ faultySends cfg plan⟩ := by
   obtain ⟨hcount, hpay, hsize, hlo, hhi⟩ := wf_wire cfg st h
   unfold getServerPackets
   rw [impl_eq]
-  exact steps_unitOf s hudp DEFAULT_PAYLOAD (recvAll s) (tailOk_recvAll s hudp) cfg.challenge hlo hhi
+  exact steps_unitOf s hudp DEFAULT_PAYLOAD (dataPackets cfg st) (recvAll s)
+    (tailOk_recvAll s hudp cfg.unknown (payloads cfg st) hcount hsize) cfg.challenge hlo hhi
     (dataRequest cfg.challenge) (dataRequest_eq cfg.challenge) arrival (payloads cfg st) q (afterValid arrival q)
     (fun fs sn => steps_recvAll_ok s hudp q fs sn arrival (payloads cfg st) (fun d hd => hsize d (harr.subset hd))
       (feed_arrival cfg st hcount hpay hsize arrival harr))
@@ -412,7 +593,8 @@ anything: the post-processing is applied to the outcome C10 prescribes for the p
 plan's. -/
 theorem exchange_faulty (cfg : Config) (st : State) (h : wf cfg st = true) (port retries : Nat) {α : Type}
     (post : List Bytes → Res α) (arrival : List Bytes) (harr : arrival.Perm (dataPackets cfg st))
-    (plan : Plan) (hplan : wfPlan retries plan = true) (restQ : List Delivery) (restF : List Bool) :
+    (plan : Plan) (hplan : wfPlan retries (dataPackets cfg st) plan = true) (restQ : List Delivery)
+    (restF : List Bool) :
     (exchange port retries DEFAULT_PAYLOAD false post
         (Net.init [.opened (faultyScript cfg plan arrival ++ restQ)] (faultyFaults plan ++ restF))).1
       = (faultyPackets cfg st plan >>= post)
@@ -440,7 +622,7 @@ theorem faultyExpected_eq (cfg : Config) (st : State) (h : wf cfg st = true) (pl
   cases plan.ending with
   | valid => simpa using buildResponse_spec cfg st h
   | gaveUp => rfl
-  | malformed stage m => rfl
+  | malformed stage got m => rfl
 
 theorem dataRequest_ne (c : Int) : (dataRequest c == handshakeRequest) = false := by
   simp [dataRequest, handshakeRequest, sessionId]
@@ -450,7 +632,7 @@ theorem attemptsOf_append (a b : List (Bytes × Bool)) : attemptsOf (a ++ b) = a
 
 theorem attemptsOf_attempt (dreq : Bytes) (hne : (dreq == handshakeRequest) = false) (a : Attempt) :
     attemptsOf (a.sendsWith dreq) = 1 := by
-  obtain ⟨stage, sf⟩ := a
+  obtain ⟨stage, sf, got⟩ := a
   cases stage <;> simp [Attempt.sendsWith, attemptsOf, hne]
 
 theorem attemptsOf_fails (dreq : Bytes) (hne : (dreq == handshakeRequest) = false) (fails : List Attempt) :
@@ -469,7 +651,7 @@ theorem attemptsOf_sendsWith (dreq : Bytes) (hne : (dreq == handshakeRequest) = 
   cases ending with
   | valid => simp [Ending.sendsWith, attemptsOf, hne]
   | gaveUp => rfl
-  | malformed stage m => cases stage <;> simp [Ending.sendsWith, attemptsOf, hne]
+  | malformed stage got m => cases stage <;> simp [Ending.sendsWith, attemptsOf, hne]
 
 theorem attemptsOf_plan (cfg : Config) (plan : Plan) : attemptsOf (faultySends cfg plan) = plan.attempts :=
   attemptsOf_sendsWith _ (dataRequest_ne cfg.challenge) plan
